@@ -168,6 +168,8 @@ type caseIn struct {
 	Mappings []mapSpec  `json:"mappings"`
 	Codes    []codeSpec `json:"codes"`
 	Domains  []domSpec  `json:"domains"`
+	Xnode    bool       `json:"xnode"`  // two-node world: bridge manager double + connection state store + cross-node pool wired
+	Remote   []bool     `json:"remote"` // client i is connected on another node (its control connection is not on this one)
 	Aux      bool       `json:"aux"` // additionally register command.SendNotifyToClientHandler with the real NotificationService
 	Steps    []stepSpec `json:"steps"`
 }
@@ -210,6 +212,8 @@ type caseOut struct {
 type world struct {
 	fx       *server.VerifFixture
 	fstore   *faultStore
+	relays   *relayLog
+	relayDetail []string
 	cancel   context.CancelFunc
 	clientID []int64    // index -> real client id (index 0 -> 0)
 	connID   []string   // index -> control connection id
@@ -335,8 +339,13 @@ func newWorld(c *caseIn) (*world, error) {
 		w.domIDs = append(w.domIDs, hm.ID)
 	}
 	for i := 1; i <= c.NClients; i++ {
-		if i-1 < len(c.Online) && !c.Online[i-1] {
+		if (i-1 < len(c.Online) && !c.Online[i-1]) || (c.Xnode && i-1 < len(c.Remote) && c.Remote[i-1]) {
 			_ = fx.Session.CloseConnection(w.connID[i])
+		}
+	}
+	if c.Xnode {
+		if err := w.wireXnode(ctx, c.Remote); err != nil {
+			return w, fmt.Errorf("two-node wiring: %v", err)
 		}
 	}
 	return w, nil
@@ -759,6 +768,7 @@ loop:
 		}
 		o.Deliveries = append(o.Deliveries, []int64{boundTo[d.ci], ct, stamped}) // the client the receiving connection is bound to
 	}
+	o.Deliveries = append(o.Deliveries, w.takeRelays()...)
 	if o.Deliveries == nil {
 		o.Deliveries = [][]int64{}
 	}
@@ -948,7 +958,9 @@ func evalProperty(w *world, s *stepSpec, before *stepOut, o *stepOut) {
 				ok = true
 			}
 		}
-		if !ok {
+		if !ok && ct >= 1000 {
+			fail("relayed-to-other-node", fmt.Sprintf("relay code %d (1035 TunnelOpen broadcast with SecretKey / 1121 DNS query frame / 1051 config push) addressed to client %d on another node on behalf of connection identity %d, which has no mapping (listen=%d,target=%d): %v", ct, t, x, x, t, w.relayDetail))
+		} else if !ok {
 			fail("reached-client", fmt.Sprintf("command type %d forwarded to client %d by connection identity %d without a mapping (listen=%d,target=%d)", ct, t, x, x, t))
 		}
 	}
